@@ -27,10 +27,10 @@ using booster::ptime;
 struct HRec {
 	std::string kind; int count = 0; int thread = -2; int64_t t_us = 0; int code = 0; std::string cat; size_t n = 0;
 	int64_t deadline_us = -1; int fd = -1; int dir = 0; uint64_t armed_seq = 0; size_t readable_at_call = 0; bool posted_after_stop = false; bool cancel_ok = false; bool threw = false;
-	size_t want = 0; std::string data; bool aba = false;   // aba: wait on a descriptor whose number was re-used while the cancel of the previous device was still deferred (known finding)
+	size_t want = 0; std::string data; int life = 1; bool aba = false;   // aba: wait on a descriptor whose number was re-used while the cancel of the previous device was still deferred (known finding)
 };
 struct World {
-	std::vector<HRec> h; int live_functors = 0; int loop_thread = -1; bool stop_called = false; bool pair_starved = false; int pair_waits = 0; int loop_restarts = 0;
+	std::vector<HRec> h; int live_functors = 0; int loop_thread = -1, loop_thread2 = -1; bool stop_called = false; bool pair_starved = false; int pair_waits = 0; int loop_restarts = 0;
 	int dev_cycles = 0, dev_reused = 0, dev_stale = 0; std::map<int,int> stale_fd;   /* descriptor number -> handler of the device closed by a non-loop thread whose cancel the loop may not have applied yet */ std::map<std::pair<int,int>,bool> armed; std::set<int> xcancelled_fds; std::vector<std::pair<int,uint64_t>> xcancels; uint64_t evseq = 0;
 	int add(const std::string &k){ simk::TsanIgnore ign; h.emplace_back(); h.back().kind = k; return (int)h.size()-1; }
 };
@@ -113,6 +113,8 @@ struct E6 : Engine {
 		p["chains"] = ch;
 		p["p_short_read"] = r.below(2) ? (int)r.below(400) : 0; p["p_short_write"] = r.below(2) ? (int)r.below(400) : 0; p["p_spurious"] = r.below(4) == 0 ? (int)r.below(100) : 0;
 		p["stop_race"] = r.below(5) == 0;
+		// a second life: after stop() (called by a foreign thread while the loop is idle) and reset() the service runs again and must serve other threads as before
+		if(!p.geti("stop_race") && r.below(4) == 0){ J l2 = J::arr(); int n = 1 + r.below(5); for(int i=0;i<n;i++){ J o = J::obj(); unsigned x = r.below(10); if(x < 4) o["op"] = "post"; else if(x < 7){ o["op"] = "timer"; o["ms"] = (int)r.below(15); } else if(x < 9 && npairs){ o["op"] = "io"; o["p"] = (int)r.below(npairs); } else { o["op"] = "sleep"; o["ms"] = 1 + (int)r.below(10); } l2.push(o); } p["life2"] = l2; p["life2_idle_ms"] = (int)r.below(3) * 5; }
 		return p;
 	}
 
@@ -294,6 +296,22 @@ struct E6 : Engine {
 			} else env.join();
 			w.stop_called = true; srv.stop();
 			loop.join();
+			// ---- second life
+			{ const J &l2 = plan.get("life2");
+			  if(res.ok && !stop_race && l2.is_arr() && l2.size()){
+				srv.reset(); w.stop_called = false; size_t first2 = w.h.size(); res.counters["second_lives"] = 1;
+				std::thread loop2([&]{ w.loop_thread2 = simk::self_id(); try { srv.run(); } catch(LoopThrow const &){} });
+				simk::sleep_us(1000 * std::max<int64_t>(0,std::min<int64_t>(plan.geti("life2_idle_ms"),1000)));   // the loop may already be idle in its reactor when the first request arrives
+				auto served = [&](int h,const char *what){ bool ok = simk::block([&w,h]{ return w.h[h].count > 0; },simk::now_us()+30LL*1000000,"life2-wait"); if(!ok) res.fail("handler-never-invoked",std::string("second life (after stop(), reset(), run()): ") + what + " issued by another thread while the loop was idle was not served within 30 simulated seconds"); return ok; };
+				for(size_t i=0;i<l2.size() && i<8 && res.ok;i++){ const J &o = l2.a[i]; std::string op = o.gets("op");
+					if(op == "post"){ int h = w.add("post"); w.h[h].life = 2; srv.post(Fn(h)); served(h,"a posted handler"); }
+					else if(op == "timer"){ int h = w.add("timer"); w.h[h].life = 2; int64_t ms = std::max<int64_t>(0,std::min<int64_t>(o.geti("ms"),1000)); w.h[h].deadline_us = simk::now_us() + ms*1000; ptime at = ptime(w.h[h].deadline_us/1000000,(int)((w.h[h].deadline_us%1000000)*1000)); srv.set_timer_event(at,Fn(h)); served(h,"a timer"); }
+					else if(op == "io" && npairs){ int p = (int)(((o.geti("p") % npairs) + npairs) % npairs); int fd = pairs[p].first; { char b[4096]; while(::read(fd,b,sizeof(b)) > 0){} }
+						int h = w.add("io_in"); w.h[h].life = 2; w.h[h].fd = fd; w.h[h].dir = aio::io_events::in; srv.set_io_event(fd,aio::io_events::in,Fn(h)); for(int k=0;k<1000;k++){ if(::write(pairs[p].second,"z",1) == 1 || (errno != EINTR && errno != EAGAIN)) break; } served(h,"a descriptor wait whose event happened"); }
+					else simk::sleep_us(1000 * std::max<int64_t>(0,std::min<int64_t>(o.geti("ms"),100))); }
+				int64_t t_stop = simk::now_us(); w.stop_called = true; srv.stop(); loop2.join();
+				if(res.ok && simk::now_us() - t_stop > 30LL*1000000) res.fail("stop-not-noticed","second life: run() returned " + std::to_string((long)((simk::now_us() - t_stop)/1000000)) + " simulated seconds after stop() was called by another thread");
+				(void)first2; } }
 			for(auto &ch:chains){ ch->timer.reset(); ch->canceler.reset(); if(ch->sock){ booster::system::error_code e; ch->sock->close(e); } if(ch->peer >= 0 && !ch->peer_closed) ::close(ch->peer); }
 			for(auto &pr:pairs){ ::close(pr.first); ::close(pr.second); }
 		}
@@ -306,7 +324,7 @@ struct E6 : Engine {
 			if(r.count > 1){ res.fail("handler-ran-twice",nm + " was invoked " + std::to_string(r.count) + " times"); continue; }
 			if(r.count == 0){ if(!stop_race && res.ok) res.fail("handler-never-invoked",nm + " was never invoked"); continue; }
 			if(w.xcancelled_fds.count(r.fd)) res.counters["xthread_cancelled_waits"] = res.counters.geti("xthread_cancelled_waits") + 1;
-			if(r.thread != w.loop_thread) res.fail("wrong-thread",nm + " ran on thread " + std::to_string(r.thread) + ", the loop runs on " + std::to_string(w.loop_thread));
+			if(r.thread != (r.life == 2 ? w.loop_thread2 : w.loop_thread)) res.fail("wrong-thread",nm + " ran on thread " + std::to_string(r.thread) + ", the loop runs on " + std::to_string(r.life == 2 ? w.loop_thread2 : w.loop_thread));
 			bool canceled = r.code == aio::aio_error::canceled && r.cat == aio::aio_error_cat.name();
 			if(r.code == 0) n_ok++; else n_cancel++;
 			if(r.kind == "timer" || r.kind == "dtimer"){
